@@ -105,6 +105,26 @@ def model_code(m, path):
             return 'm.iter_%s().map(|t| vec![t.0]).collect()' % r
         return 'm.iter_%s().map(|t| %s).collect()' % (r, rust_vec(['t.%d.0' % i for i in range(k)]))
     A('pub fn iter_rel(m: &M, rel: usize) -> Vec<Vec<u32>> { match rel { %s _ => unreachable!() } }' % ' '.join('%d => %s,' % (i, iter_expr(r)) for i, r in enumerate(rl)))
+    # enum case queries: <t>_cases(el) must list exactly the constructor applications that evaluate to el
+    enums = {}
+    for t, T in m.types.items():
+        em = re.search(r'pub enum %sCase \{([^}]*)\}' % T, m.src.text)
+        if em:
+            ctors = []
+            for cm in re.finditer(r'(\w+)\(([^)]*)\)', em.group(1)):
+                snake = re.sub(r'(?<!^)(?=[A-Z])', '_', cm.group(1)).lower()
+                nargs = len([x for x in cm.group(2).split(',') if x.strip()])
+                if snake in rl:
+                    ctors.append((cm.group(1), rl.index(snake), nargs))
+            enums[t] = ctors
+    arms = []
+    for i, t in enumerate(tlist):
+        if t in enums:
+            T = m.types[t]
+            vs = ' '.join('%sCase::%s(%s) => (%d, vec![%s]),' % (T, c, ', '.join('a%d' % k for k in range(n)), ri, ', '.join('a%d.0' % k for k in range(n))) for c, ri, n in enums[t])
+            arms.append('%d => Some(m.%s_cases(%s(x)).map(|c| match c { %s }).collect()),' % (i, t, T, vs))
+    A('pub fn cases(m: &M, ty: usize, x: u32) -> Option<Vec<(usize, Vec<u32>)>> { match ty { %s _ => None } }' % ' '.join(arms))
+    A('pub const CTORS: &[(usize, usize)] = &[%s];' % ', '.join('(%d, %d)' % (tlist.index(t), ri) for t in enums for _, ri, _ in enums[t]))
     A('pub fn close(m: &mut M) { m.close() }')
     A('pub fn close_until(m: &mut M, cond: &dyn Fn(&M) -> bool) -> bool { m.close_until(|x| cond(x)) }')
     A('pub fn check(m: &M) -> Result<(), String> { m.verif_check() }')
